@@ -4,8 +4,10 @@ import ZvbiModel.Demux.Model
 -/
 namespace Zvbi.Demux
 
+variable {cfg : SrcCfg}
+
 theorem dataUnit_no_fault (f : Frame) (d : Bytes) (id len : Nat) (h2 : 2 < d.length) (hl : len + 2 ≤ d.length) :
-    ∀ f' e, dataUnit f d id len ≠ .fail f' (.fault e) := by
+    ∀ f' e, dataUnit cfg f d id len ≠ .fail f' (.fault e) := by
   intro f' e
   have g2 : ∃ x, d[2]? = some x := ⟨d[2], by simp [h2]⟩
   obtain ⟨x2, hx2⟩ := g2
@@ -18,7 +20,7 @@ theorem dataUnit_no_fault (f : Frame) (d : Bytes) (id len : Nat) (h2 : 2 < d.len
   all_goals (exfalso; simp only [List.length_take, List.length_drop, List.getElem?_eq_none_iff] at *; omega)
 
 theorem extractLoop_no_fault : ∀ (fuel : Nat) (f : Frame) (d : Bytes), d.length < fuel →
-    ∀ e, (extractLoop fuel f d).2.1 ≠ .fault e := by
+    ∀ e, (extractLoop cfg fuel f d).2.1 ≠ .fault e := by
   intro fuel
   induction fuel with
   | zero => intro f d h; omega
@@ -35,10 +37,10 @@ theorem extractLoop_no_fault : ∀ (fuel : Nat) (f : Frame) (d : Bytes), d.lengt
         by_cases hl : len + 2 > (id :: len :: t).length
         · rw [if_pos hl]; simp
         · rw [if_neg hl]
-          have hnf := dataUnit_no_fault f (id :: len :: t) id len (by omega) (by omega)
+          have hnf := dataUnit_no_fault (cfg := cfg) f (id :: len :: t) id len (by omega) (by omega)
           have hdrop : ((id :: len :: t).drop (len + 2)).length < fuel := by
             simp only [List.length_drop]; omega
-          cases hdu : dataUnit f (id :: len :: t) id len with
+          cases hdu : dataUnit cfg f (id :: len :: t) id len with
           | skip => simp only []; exact ih _ _ hdrop e
           | store f' => simp only []; exact ih _ _ hdrop e
           | fail f' r =>
@@ -46,7 +48,7 @@ theorem extractLoop_no_fault : ∀ (fuel : Nat) (f : Frame) (d : Bytes), d.lengt
             intro hr
             exact hnf f' e (by rw [hdu, hr])
 
-theorem extract_no_fault (f : Frame) (d : Bytes) (h : 2 ≤ d.length) : ∀ e, (extract f d).2.1 ≠ .fault e := by
+theorem extract_no_fault (f : Frame) (d : Bytes) (h : 2 ≤ d.length) : ∀ e, (extract cfg f d).2.1 ≠ .fault e := by
   intro e
   unfold extract
   rw [if_neg (by omega)]
@@ -56,17 +58,18 @@ theorem extract_no_fault (f : Frame) (d : Bytes) (h : 2 ≤ d.length) : ∀ e, (
 def Fresh (f : Frame) : Prop := f.lines = [] ∧ f.lastFrameLine = 0 ∧ f.lastDuId = 0 ∧ f.lastField = 0
 
 theorem lineAddress_fresh (f : Frame) (hf : Fresh f) (lofp : Nat) (sys : Bool) :
-    ∃ f' line, lineAddress f lofp sys = .ok f' line ∧ f'.nDu ≥ 1 := by
+    ∃ f' line, lineAddress cfg f lofp sys = .ok f' line ∧ f'.nDu ≥ 1 := by
   obtain ⟨h1, h2, h3, h4⟩ := hf
   unfold lineAddress
-  rw [if_neg (by simp [h1, N_SLICED])]
-  simp only [h2, h3]
+  have hlen : ¬ (f.lines.length ≥ N_SLICED) := by simp [h1, N_SLICED]
+  rw [if_neg (fun h => hlen h.2)]
+  simp only [h2, h3, if_neg hlen]
   split
   · rw [if_neg (by omega)]; exact ⟨_, _, rfl, by simp⟩
   · simp
 
 theorem lineAddress_ndu (f : Frame) (lofp : Nat) (sys : Bool) (h : f.nDu ≥ 1) :
-    lineAddress f lofp sys ≠ .newFrame ∧ ∀ f' line, lineAddress f lofp sys = .ok f' line → f'.nDu ≥ 1 := by
+    lineAddress cfg f lofp sys ≠ .newFrame ∧ ∀ f' line, lineAddress cfg f lofp sys = .ok f' line → f'.nDu ≥ 1 := by
   unfold lineAddress
   have hn : ¬ f.nDu = 0 := by omega
   have hp : f.nDu > 0 := by omega
@@ -83,9 +86,9 @@ theorem lineAddress_ndu (f : Frame) (lofp : Nat) (sys : Bool) (h : f.nDu ≥ 1) 
       | (simp_all; done)
 
 theorem dataUnit_ndu_nf (f : Frame) (d : Bytes) (id len : Nat) (h : f.nDu ≥ 1) :
-    ∀ f', dataUnit f d id len ≠ .fail f' .newFrame := by
+    ∀ f', dataUnit cfg f d id len ≠ .fail f' .newFrame := by
   intro f'
-  have hla := fun lofp sys => (lineAddress_ndu f lofp sys h).1
+  have hla := fun lofp sys => (lineAddress_ndu (cfg := cfg) f lofp sys h).1
   unfold dataUnit
   simp only []
   repeat' split
@@ -94,9 +97,9 @@ theorem dataUnit_ndu_nf (f : Frame) (d : Bytes) (id len : Nat) (h : f.nDu ≥ 1)
     | (exfalso; rename_i heq; exact hla _ _ heq)
 
 theorem dataUnit_ndu_store (f : Frame) (d : Bytes) (id len : Nat) (h : f.nDu ≥ 1) :
-    ∀ f', dataUnit f d id len = .store f' → f'.nDu ≥ 1 := by
+    ∀ f', dataUnit cfg f d id len = .store f' → f'.nDu ≥ 1 := by
   intro f'
-  have hla := fun lofp sys => (lineAddress_ndu f lofp sys h).2
+  have hla := fun lofp sys => (lineAddress_ndu (cfg := cfg) f lofp sys h).2
   unfold dataUnit
   simp only []
   repeat' split
@@ -105,7 +108,7 @@ theorem dataUnit_ndu_store (f : Frame) (d : Bytes) (id len : Nat) (h : f.nDu ≥
     | (intro h; cases h; simp only [pushLine]; exact hla _ _ _ _ (by assumption))
 
 theorem extractLoop_ndu : ∀ (fuel : Nat) (f : Frame) (d : Bytes), f.nDu ≥ 1 →
-    (extractLoop fuel f d).2.1 ≠ .newFrame := by
+    (extractLoop cfg fuel f d).2.1 ≠ .newFrame := by
   intro fuel
   induction fuel with
   | zero => intro f d _; simp [extractLoop]
@@ -122,7 +125,7 @@ theorem extractLoop_ndu : ∀ (fuel : Nat) (f : Frame) (d : Bytes), f.nDu ≥ 1 
         by_cases hl : len + 2 > (id :: len :: t).length
         · rw [if_pos hl]; simp
         · rw [if_neg hl]
-          cases hdu : dataUnit f (id :: len :: t) id len with
+          cases hdu : dataUnit cfg f (id :: len :: t) id len with
           | skip => simp only []; exact ih _ _ (by simpa using h)
           | store f' =>
             simp only []
@@ -134,9 +137,9 @@ theorem extractLoop_ndu : ∀ (fuel : Nat) (f : Frame) (d : Bytes), f.nDu ≥ 1 
 
 /-- when the loop stops with -1, `*src` points at a unit whose `line_address` said -1 -/
 theorem extractLoop_newFrame_rest : ∀ (fuel : Nat) (f : Frame) (d : Bytes) (f1 : Frame) (rest : Bytes),
-    extractLoop fuel f d = (f1, .newFrame, rest) →
+    extractLoop cfg fuel f d = (f1, .newFrame, rest) →
     ∃ fa id len t, rest = id :: len :: t ∧ 2 < rest.length ∧ len + 2 ≤ rest.length ∧
-      dataUnit fa rest id len = .fail f1 .newFrame := by
+      dataUnit cfg fa rest id len = .fail f1 .newFrame := by
   intro fuel
   induction fuel with
   | zero => intro f d f1 rest h; simp [extractLoop] at h
@@ -153,7 +156,7 @@ theorem extractLoop_newFrame_rest : ∀ (fuel : Nat) (f : Frame) (d : Bytes) (f1
         by_cases hl : len + 2 > (id :: len :: t).length
         · rw [if_pos hl] at h; simp at h
         · rw [if_neg hl] at h
-          cases hdu : dataUnit f (id :: len :: t) id len with
+          cases hdu : dataUnit cfg f (id :: len :: t) id len with
           | skip => rw [hdu] at h; exact ih _ _ _ _ h
           | store f' => rw [hdu] at h; exact ih _ _ _ _ h
           | fail f' r =>
@@ -168,10 +171,11 @@ def GoodDU : DU → Prop
   | .fail _ r => r ≠ .newFrame
   | .skip => False
 
+set_option maxHeartbeats 800000 in
 theorem dataUnit_fresh (f f0 f1 : Frame) (d : Bytes) (id len : Nat) (hf : Fresh f0)
-    (h : dataUnit f d id len = .fail f1 .newFrame) : GoodDU (dataUnit f0 d id len) := by
-  obtain ⟨ft, lt, hlt, hnt⟩ := lineAddress_fresh f0 hf (d.getD 2 0) true
-  obtain ⟨ff, lf, hlf, hnf⟩ := lineAddress_fresh f0 hf (d.getD 2 0) false
+    (h : dataUnit cfg f d id len = .fail f1 .newFrame) : GoodDU (dataUnit cfg f0 d id len) := by
+  obtain ⟨ft, lt, hlt, hnt⟩ := lineAddress_fresh (cfg := cfg) f0 hf (d.getD 2 0) true
+  obtain ⟨ff, lf, hlf, hnf⟩ := lineAddress_fresh (cfg := cfg) f0 hf (d.getD 2 0) false
   unfold dataUnit at h ⊢
   simp only [] at h ⊢
   cases hd2 : d[2]? with
@@ -195,8 +199,8 @@ theorem dataUnit_fresh (f f0 f1 : Frame) (d : Bytes) (id len : Nat) (hf : Fresh 
 theorem fresh_reset (f : Frame) : Fresh (resetFrame f) := ⟨rfl, rfl, rfl, rfl⟩
 
 theorem extract_after_newFrame (f f0 f1 : Frame) (d rest : Bytes) (hf : Fresh f0)
-    (h : extract f d = (f1, .newFrame, rest)) :
-    2 ≤ rest.length ∧ (extract f0 rest).2.1 ≠ .newFrame := by
+    (h : extract cfg f d = (f1, .newFrame, rest)) :
+    2 ≤ rest.length ∧ (extract cfg f0 rest).2.1 ≠ .newFrame := by
   unfold extract at h
   by_cases hd : d.length < 2
   · rw [if_pos hd] at h; simp at h
@@ -211,7 +215,7 @@ theorem extract_after_newFrame (f f0 f1 : Frame) (d rest : Bytes) (hf : Fresh f0
     subst hrest
     simp only []
     rw [if_neg (by omega)]
-    cases hdu0 : dataUnit f0 (id :: len :: t) id len with
+    cases hdu0 : dataUnit cfg f0 (id :: len :: t) id len with
     | skip => rw [hdu0] at hg; exact hg.elim
     | store f' =>
       rw [hdu0] at hg
@@ -223,13 +227,13 @@ theorem extract_after_newFrame (f f0 f1 : Frame) (d rest : Bytes) (hf : Fresh f0
 
 /-- `demux_pes_packet_frame` with a callback: at most two rounds, never a fault, result 0 or an error -/
 theorem pesPacketFrame_ok (se : Bool) (fs : FS) (d : Bytes) (hd : 2 ≤ d.length) :
-    (pesPacketFrame 3 true se fs d).2.2.1 = .done ∨ (pesPacketFrame 3 true se fs d).2.2.1 = .err := by
+    (pesPacketFrame cfg 3 true se fs d).2.2.1 = .done ∨ (pesPacketFrame cfg 3 true se fs d).2.2.1 = .err := by
   unfold pesPacketFrame
   simp only []
   generalize hfs1 : (if fs.newFrame = true then
       ({ fs with frame := resetFrame fs.frame, framePts := fs.packetPts, newFrame := false } : FS) else fs) = fs1
-  have hnf := extract_no_fault fs1.frame d hd
-  rcases hx : extract fs1.frame d with ⟨f, r, rest⟩
+  have hnf := extract_no_fault (cfg := cfg) fs1.frame d hd
+  rcases hx : extract cfg fs1.frame d with ⟨f, r, rest⟩
   rw [hx] at hnf
   cases r with
   | done => simp
@@ -240,8 +244,8 @@ theorem pesPacketFrame_ok (se : Bool) (fs : FS) (d : Bytes) (hd : 2 ≤ d.length
     have h2 := extract_after_newFrame fs1.frame (resetFrame f) f d rest (fresh_reset f) hx
     unfold pesPacketFrame
     simp only [if_true]
-    have hnf2 := extract_no_fault (resetFrame f) rest h2.1
-    rcases hx2 : extract (resetFrame f) rest with ⟨f2, r2, rest2⟩
+    have hnf2 := extract_no_fault (cfg := cfg) (resetFrame f) rest h2.1
+    rcases hx2 : extract cfg (resetFrame f) rest with ⟨f2, r2, rest2⟩
     rw [hx2] at hnf2
     have h3 := h2.2
     rw [hx2] at h3
